@@ -6,6 +6,7 @@ package manager
 // bin/conf/C20.py). DESIGN.md §5 C20.
 
 import (
+	"encoding/json"
 	"fmt"
 	"net"
 	"os"
@@ -98,7 +99,9 @@ func c20Prop(rt *rapid.T, c *vlib.Case, t *testing.T) {
 	wg.Add(1)
 	go func() {
 		defer wg.Done()
-		for range ch {
+		// what the websocket handler of cmd/pkappa2 does with every event
+		for ev := range ch {
+			_, _ = json.Marshal(ev)
 		}
 	}()
 	// pollers
@@ -109,6 +112,7 @@ func c20Prop(rt *rapid.T, c *vlib.Case, t *testing.T) {
 		func() { e.mgr.ListConverters() },
 		func() { e.mgr.ListPcapOverIPEndpoints() },
 		func() { e.mgr.Config() },
+		func() { e.mgr.ListPcapProcessorWebhooks() },
 		func() {
 			for _, st := range e.mgr.ListConverters() {
 				for _, p := range st.Processes {
@@ -141,7 +145,17 @@ func c20Prop(rt *rapid.T, c *vlib.Case, t *testing.T) {
 	fed := false
 	steps := rapid.IntRange(8, 30).Draw(rt, "steps")
 	for i := 0; i < steps; i++ {
-		switch rapid.SampledFrom([]string{"import", "import", "tag", "tag", "tag", "mark", "conv", "conv", "reset", "view", "pause", "endpoint"}).Draw(rt, "step") {
+		switch rapid.SampledFrom([]string{"import", "import", "tag", "tag", "tag", "mark", "conv", "conv", "reset", "view", "pause", "endpoint", "hook", "config"}).Draw(rt, "step") {
+		case "hook":
+			u := rapid.SampledFrom([]string{"http://127.0.0.1:1/a", "http://127.0.0.1:1/b", "http://127.0.0.1:1/c"}).Draw(rt, "hook")
+			if rapid.IntRange(0, 2).Draw(rt, "addhook") != 0 {
+				r.apiCall("AddWebhook("+u+")", func() error { return e.mgr.AddPcapProcessorWebhook(u) })
+			} else {
+				r.apiCall("DelWebhook("+u+")", func() error { return e.mgr.DelPcapProcessorWebhook(u) })
+			}
+		case "config":
+			v := rapid.Bool().Draw(rt, "autolimit")
+			r.apiCall(fmt.Sprintf("SetConfig(%v)", v), func() error { return e.mgr.SetConfig(Config{AutoInsertLimitToQuery: v}) })
 		case "endpoint":
 			if rapid.IntRange(0, 2).Draw(rt, "addendpoint") != 0 {
 				if r.apiCall("AddPcapOverIPEndpoint", func() error { return e.mgr.AddPcapOverIPEndpoint(feedAddr) }) == nil {
